@@ -75,49 +75,53 @@ def run(ck, F, tier):
     # ---- H2: Decoder::decode_f64 -------------------------------------------------------------------
     DEC = "c_api::decoder::Decoder::"
     b = F.body(DEC + "decode_f64")
-    t = Tracer(F, r"decoder::LdpcDecoder::decode|core::slice::<impl \[T\]>::copy_from_slice", mode="int")
-    env = {}
-    for p, nm in zip(b.params, ("self", "output", "llrs", "max_iterations")):
-        t.bind(p, var(nm), env)
-    try:
-        ret = t.eval(b.value, env)
-    except Unsupported as e:
-        raise AnalysisError("decode_f64: unreadable shape: %s" % e)
-    dec = [e for e in t.events if e.callee.endswith("::decode")]
-    cps = [e for e in t.events if e.callee.endswith("copy_from_slice")]
-    if len(dec) != 1 or len(cps) != 1:
-        raise AnalysisError("decode_f64: expected one decode and one copy_from_slice")
-    llr_arg, it_arg = dec[0].args[1], dec[0].args[2]
-    # decoder input: depuncture(llrs).unwrap() when self.puncturer is Some, else the caller's llrs. All spellings
-    # (map + if let, map + as_deref().unwrap_or, match, map_or) have the normal form match(as_ref(puncturer), Some -> .., None -> llrs)
-    PUN = var("self.puncturer")
-    want_llrs = [app("match", o, ((repr(("Some", "_")), app("std::result::Result::<T, E>::unwrap", app("simulation::puncturing::Puncturer::depuncture", app("payload0", o), var("llrs")))),
-                                  (repr("None"), var("llrs")))) for o in (PUN, var("self.puncturer"))]
-    sel_ok = llr_arg in want_llrs
-    ck.inst("H2", "decode_f64:llrs", sel_ok and dec[0].args[0] == var("self.decoder"), dec[0].site,
-            "decoder input = depuncture(llrs).unwrap() when self.puncturer is Some, else the caller's llrs: %s" % sel_ok)
-    ck.inst("H2", "decode_f64:limit", it_arg == app("std::result::Result::<T, E>::unwrap", app("std::convert::TryFrom::try_from", var("max_iterations"))), dec[0].site,
-            "iteration limit = usize::try_from(max_iterations).unwrap(): %r" % (it_arg,))
-    RES = app("decoder::LdpcDecoder::decode", *dec[0].args)
-    OUTP = app("either_payload", RES)     # the DecoderOutput carried by Ok and Err alike
     from ..idioms import exits
-    ISOK = repr(app("std::result::Result::<T, E>::is_ok", RES))
-    want_exits = {(frozenset({(ISOK, True)}), repr(app("std::result::Result::<T, E>::unwrap", app("std::convert::TryFrom::try_from", app(".iterations", OUTP))))),
-                  (frozenset({(ISOK, False)}), repr(num(-1)))}
-    got_exits = {(g, repr(v)) for g, v in exits(t, ret)}
-    ret_ok = got_exits == want_exits
-    ck.inst("H2", "decode_f64:return", ret_ok, b.span, "returns i32::try_from(decoded.iterations).unwrap() if the decode result is Ok, else -1, both about the same decode result")
-    dst, src = cps[0].args
-    want_src = app("index", app(".codeword", OUTP), ("struct", "RangeTo", {"end": app("core::slice::<impl [T]>::len", var("output"))}))
-    pre_ok = dst == var("output") and vkey(src) == vkey(want_src) and not cps[0].guards and not cps[0].loops
-    ck.inst("H2", "decode_f64:prefix", pre_ok, cps[0].site, "output.copy_from_slice(&decoded.codeword[..output.len()]) - the leading bits of the decoder's word, Ok or Err arm alike, on every path")
-    # the copy happens before any early return
-    early = [e for e in t.events if e.callee == "<return>"]
-    order_ok = all(t.events.index(cps[0]) < t.events.index(e) for e in early)
-    ck.inst("H2", "decode_f64:both-arms-same-payload", order_ok, b.span, "the output buffer is written before the verdict is returned on every path (%d early return(s))" % len(early))
+    from ..symx import canon_cond
+    UNWRAP = "std::result::Result::<T, E>::unwrap"
+    # decode_f64 is read by cases on the configuration `self.puncturer` (Some(P) / None): whatever the control structure (option
+    # combinators, if let, one match with the decode call in both arms, a helper doing the decode) each case is one straight path
+    for case, pval, want_llr in (("punctured", ("ctor", "Some", [var("P")]), app(UNWRAP, app("simulation::puncturing::Puncturer::depuncture", var("P"), var("llrs")))),
+                                 ("unpunctured", ("variant", "None"), var("llrs"))):
+        t = Tracer(F, r"decoder::LdpcDecoder::decode|core::slice::<impl \[T\]>::copy_from_slice", mode="int",
+                   inline=lambda p: F.private_helper(p, "c_api::", keep=re.escape(DEC) + r"(new|from_alist_file|decode_f64|decode_f32)|c_api::c_to_string"))
+        env = {}
+        t.bind(b.params[0], ("struct", "Decoder", {"puncturer": pval, "decoder": var("self.decoder")}), env)
+        for p, nm in zip(b.params[1:], ("output", "llrs", "max_iterations")):
+            t.bind(p, var(nm), env)
+        try:
+            ret = t.eval(b.value, env)
+        except Unsupported as e:
+            raise AnalysisError("decode_f64 (%s): unreadable shape: %s" % (case, e))
+        dec = [e for e in t.events if e.callee.endswith("::decode")]
+        cps = [e for e in t.events if e.callee.endswith("copy_from_slice")]
+        if len(dec) != 1 or len(cps) != 1:
+            raise AnalysisError("decode_f64 (%s): expected one decode and one copy_from_slice on the path, found %d / %d" % (case, len(dec), len(cps)))
+        llr_arg, it_arg = dec[0].args[1], dec[0].args[2]
+        ck.inst("H2", "decode_f64:llrs:" + case, llr_arg == want_llr and dec[0].args[0] == var("self.decoder"), dec[0].site,
+                "decoder input (%s) = %r ; required %r on the stored decoder" % (case, llr_arg, want_llr))
+        ck.inst("H2", "decode_f64:limit:" + case, it_arg == app(UNWRAP, app("std::convert::TryFrom::try_from", var("max_iterations"))), dec[0].site,
+                "iteration limit = usize::try_from(max_iterations).unwrap(): %r" % (it_arg,))
+        RES = app("decoder::LdpcDecoder::decode", *dec[0].args)
+        OUTP = app("either_payload", RES)     # the DecoderOutput carried by Ok and Err alike
+        ISOK = repr(app("std::result::Result::<T, E>::is_ok", RES))
+        want_exits = {(frozenset({(ISOK, True)}), repr(app(UNWRAP, app("std::convert::TryFrom::try_from", app(".iterations", OUTP))))),
+                      (frozenset({(ISOK, False)}), repr(num(-1)))}
+        got_exits = {(g, repr(v)) for g, v in exits(t, ret)}
+        ck.inst("H2", "decode_f64:return:" + case, got_exits == want_exits, b.span,
+                "returns i32::try_from(decoded.iterations).unwrap() if the decode result is Ok, else -1, both about the same decode result")
+        dst, src = cps[0].args
+        want_src = app("index", app(".codeword", OUTP), ("struct", "RangeTo", {"end": app("core::slice::<impl [T]>::len", var("output"))}))
+        pre_ok = dst == var("output") and vkey(src) == vkey(want_src) and not cps[0].guards and not cps[0].loops
+        ck.inst("H2", "decode_f64:prefix:" + case, pre_ok, cps[0].site,
+                "output.copy_from_slice(&decoded.codeword[..output.len()]) - the leading bits of the decoder's word, Ok or Err alike, on every path")
+        early = [e for e in t.events if e.callee == "<return>"]
+        order_ok = all(cps[0].seq < e.seq for e in early) and dec[0].seq < cps[0].seq
+        ck.inst("H2", "decode_f64:both-arms-same-payload:" + case, order_ok, b.span,
+                "the output buffer is written after the decode and before the verdict is returned on every path (%d early return(s))" % len(early))
     # decode_f32
     b32 = F.body(DEC + "decode_f32")
-    t32 = Tracer(F, re.escape(DEC) + "decode_f64", mode="int")
+    from ..idioms import PUSH_RX
+    t32 = Tracer(F, re.escape(DEC) + "decode_f64|" + PUSH_RX, mode="int")
     env = {}
     for p, nm in zip(b32.params, ("self", "output", "llrs", "max_iterations")):
         t32.bind(p, var(nm), env)
@@ -134,7 +138,8 @@ def run(ck, F, tier):
     # Encoder::encode
     ENC = "c_api::encoder::Encoder::"
     be = F.body(ENC + "encode")
-    te = Tracer(F, r"encoder::Encoder::encode|simulation::puncturing::Puncturer::puncture", mode="int")
+    te = Tracer(F, r"encoder::Encoder::encode|simulation::puncturing::Puncturer::puncture", mode="int",
+                inline=lambda p: F.private_helper(p, "c_api::", keep=r"c_api::(decoder::Decoder|encoder::Encoder)::\w+|c_api::c_to_string"))
     env = {}
     for p, nm in zip(be.params, ("self", "output", "input")):
         te.bind(p, var(nm), env)
@@ -145,13 +150,12 @@ def run(ck, F, tier):
     ok = len(en) == 1 and len(pu) == 1 and len(asg) == 1
     why = "expected one encode, one puncture, one elementwise store"
     if ok:
-        cl = [c for c in walk(be.value) if c.get("k") == "closure"]
-        bitmap = False
-        if cl:
-            v = SymEval(F).apply(("closure", cl[0], {}), [var("b")])
-            a = single_atom(v) if isinstance(v, Poly) else None
-            bitmap = a is not None and atom_fn(a) == "ite" and atom_args(a)[0] in (app("eq", var("b"), num(1)), app("eq", num(1), var("b"))) and \
-                "One::one" in repr(atom_args(a)[1]) and "Zero::zero" in repr(atom_args(a)[2])
+        # the message handed to the encoder: GF2 one for an input byte equal to 1, zero otherwise, element by element
+        from ..idioms import elementwise
+        v = elementwise(F, te, en[0].args[1], var("input"), x="b")
+        a = single_atom(v) if isinstance(v, Poly) else None
+        bitmap = a is not None and atom_fn(a) == "ite" and atom_args(a)[0] in (app("eq", var("b"), num(1)), app("eq", num(1), var("b"))) and \
+            "One::one" in repr(atom_args(a)[1]) and "Zero::zero" in repr(atom_args(a)[2])
         ENCV = app("encoder::Encoder::encode", *en[0].args)
         src_ok = en[0].args[0] == var("self.encoder") and "input" in repr(en[0].args[1])
         p_ok = pu[0].args[1] == ENCV and any("self.puncturer" in repr(g) and p for g, p in pu[0].guards)
@@ -168,7 +172,8 @@ def run(ck, F, tier):
         b = exports.get(name)
         if b is None:
             continue
-        ts = Tracer(F, r"c_api::(decoder::Decoder|encoder::Encoder)::\w+", mode="int")
+        ts = Tracer(F, r"c_api::(decoder::Decoder|encoder::Encoder)::\w+", mode="int",
+                    inline=lambda p: F.private_helper(p, "c_api::", keep=r"c_api::(decoder::Decoder|encoder::Encoder)::\w+|c_api::(c_to_string|size_t_to_usize)"))
         env = {}
         for p in b.params:
             ts.bind(p, var(p["ident"]), env)
@@ -213,7 +218,8 @@ def run(ck, F, tier):
             okv = arms.get(repr(("Ok", "_")))
             erv = arms.get(repr(("Err", "_")))
             unp = lambda k: k[1] if isinstance(k, tuple) and len(k) == 2 and k[0] == "P" else k
-            strip_cast = lambda v: atom_args(single_atom(v))[0] if isinstance(v, Poly) and single_atom(v) is not None and (atom_fn(single_atom(v)) or "").startswith("cast_") else v
+            strip_cast = lambda v: atom_args(single_atom(v))[0] if isinstance(v, Poly) and single_atom(v) is not None and \
+                ((atom_fn(single_atom(v)) or "").startswith("cast_") or (atom_fn(single_atom(v)) or "").endswith("::cast")) else v
             ok = sa is not None and atom_fn(sa) == inner and len(arms) == 2 and \
                 strip_cast(unp(okv)) == app("std::boxed::Box::<T>::into_raw", app("std::boxed::Box::<T>::new", app("payload0", subj))) and \
                 strip_cast(unp(erv)) == app("std::ptr::null_mut") and not [e for e in tc.events if e.callee in ("<return>", "<panic>")]
@@ -222,16 +228,34 @@ def run(ck, F, tier):
                       ("c_api::decoder::Decoder::from_alist_file", ["alist_file", "implementation", "puncturing"]),
                       ("c_api::encoder::Encoder::from_alist_file", ["alist_file", "puncturing"])):
         b = F.body(fn)
-        falls = [c for c in walk(b.value) if c.get("k") in ("call", "mcall") and re.search(
-            r"(from_alist|str>::parse|parse_puncturing_pattern|read_to_string|Encoder::from_h|Decoder::new|Encoder::new)$", callee(c) or "")]
-        tries = [n for n in walk(b.value) if n.get("k") == "try"]
+        # every fallible step either feeds `?`, or its Err case leads to an Err result (explicit match / map_err / tail position);
+        # read off the trace: the step's value is the operand of a <try>, or an Err exit is taken under "step is Err", or the
+        # step's value is (part of) the function's own result
+        FALL = r"sparse::SparseMatrix::from_alist|core::str::<impl str>::parse|cli::ber::parse_puncturing_pattern|std::fs::read_to_string|" \
+               r"encoder::Encoder::from_h|c_api::(decoder::Decoder|encoder::Encoder)::new"
+        tp_ = Tracer(F, FALL, mode="int", inline=lambda p: F.private_helper(p, "c_api::", keep=r"c_api::(decoder::Decoder|encoder::Encoder)::\w+|c_api::c_to_string"))
+        envp = {}
+        for p_, nm_ in zip(b.params, names):
+            tp_.bind(p_, var(nm_), envp)
+        try:
+            retp = tp_.eval(b.value, envp)
+        except Unsupported as e:
+            raise AnalysisError("%s: unreadable shape: %s" % (fn, e))
+        steps = [e for e in tp_.events if re.fullmatch(FALL, e.callee)]
+        tries = [e for e in tp_.events if e.callee == "<try>"]
+        rets_ = [e for e in tp_.events if e.callee == "<return>"]
         wrapped = 0
-        for c in falls:
-            if any(strip(tn["e"]) is c for tn in tries) or (b.value.get("e") is not None and strip(b.value["e"]) is c):
-                wrapped += 1
+        for e in steps:
+            R = app(e.callee, *e.args)
+            rr = repr(R)
+            by_try = any(rr in repr(t_.args[0]) for t_ in tries)
+            by_exit = any(isinstance(x.args[0], tuple) and x.args[0][:2] == ("ctor", "Err") and any(rr in repr(g) for g, pl in x.guards) for x in rets_)
+            in_result = rr in repr(retp)
+            # an Err arm of a match on R yielding Err(..) as the value of the function
+            wrapped += bool(by_try or by_exit or in_result)
         unw = [c for c in walk(b.value) if c.get("k") == "mcall" and c["m"] in ("unwrap", "expect")]
-        ck.inst("H3", "propagation:" + fn.rsplit("::", 2)[-2] + "::" + fn.rsplit("::", 1)[-1], wrapped == len(falls) and len(falls) >= 1 and not unw, b.span,
-                "%d fallible steps, %d propagated with `?` (or returned directly), %d unwrap/expect" % (len(falls), wrapped, len(unw)))
+        ck.inst("H3", "propagation:" + fn.rsplit("::", 2)[-2] + "::" + fn.rsplit("::", 1)[-1], wrapped == len(steps) and len(steps) >= 1 and not unw, b.span,
+                "%d fallible steps, %d with their failure propagated (`?`, explicit Err arm, or part of the returned value), %d unwrap/expect" % (len(steps), wrapped, len(unw)))
     rev = {"assert:not": (1, "Puncturer::new asserts a non-empty pattern: parse_puncturing_pattern returns Ok only after pushing one element per "
                                "comma-separated item and str::split always yields at least one item")}
     NOI = r"(?!c_api::|simulation::puncturing::Puncturer::new|cli::ber::parse_puncturing_pattern).*"
@@ -261,7 +285,7 @@ def faithful_source(v, allow_file=False):
         args = atom_args(a)
         if len(args) != 1:
             return None, via_file
-        if fn == "try" or fn == "std::fs::read_to_string":
+        if fn in ("try", "payload0", "either_payload") or fn == "std::fs::read_to_string":
             if not allow_file:
                 return None, via_file
             via_file = via_file or fn.endswith("read_to_string")
@@ -302,10 +326,18 @@ def argument_fidelity(ck, F, exports):
                 if ga is not None and atom_fn(ga) == "not":
                     inner = single_atom(atom_args(ga)[0])
                 okg = inner is not None and atom_fn(inner) == "core::str::<impl str>::is_empty" and faithful_source(atom_args(inner)[0])[0] == src and kind == "pattern"
+                if not okg and inner is not None and atom_fn(inner) == "matches" and kind == "pattern" and str(atom_args(inner)[1]) in ("''", '""', repr("")) \
+                        and faithful_source(atom_args(inner)[0])[0] == src:
+                    okg = True      # match pattern_text { "" => no puncturing, p => parse(p) }: emptiness of the same string
+                if not okg and inner is not None and atom_fn(inner) == "matches":
+                    # sequencing only: "an earlier fallible step succeeded" (match r { Ok(x) => next(x), Err(e) => .. })
+                    subj, patk = atom_args(inner)
+                    positive = pol if ga is inner else not pol
+                    okg = isinstance(subj, Poly) and ((str(patk).startswith(("('Ok'", "('Some'")) and positive) or (str(patk).startswith("('Err'") and not positive))
                 if not okg:
                     bad.append("%s parser runs under the condition %r" % (kind, g))
         missing = [c for c in cstr if c not in fed]
-        ck.inst("H4", "ctor-args:" + name, not bad and not missing and all(len(v) == 1 for v in fed.values()), b.span,
+        ck.inst("H4", "ctor-args:" + name, not bad and not missing and all(len(set(v)) == 1 for v in fed.values()), b.span,
                 "%s: %s%s%s" % (name, ", ".join("%s -> %s parser" % (k, v[0]) for k, v in sorted(fed.items())),
                                 "; " + "; ".join(bad) if bad else "", "; never parsed: %s" % missing if missing else ""))
     ck.floor("H4", "constructors taking C strings", n, 4)
